@@ -335,6 +335,26 @@ def r_serde(f):
     R.inst(vm.ident, "t1 every field has a missing_field error: %s" % sorted(miss), ok)
     if not ok:
         R.fail(vm.ident, "t1:missing:%s" % ",".join(sorted(miss)), "missing_field is raised for %s, expected one per field %s: a document lacking a field would be accepted or mis-reported" % (sorted(miss), sorted(want)), vm.where())
+    # t1b the slots start empty: a slot that is pre-filled (from the visitor's own state, say) makes the missing-field test pass
+    # for documents that lack the entry, and hides a repeated entry
+    keyblocks = [bi for bi, t, fn in vm.calls() if fn and fn["name"] in ("next_key", "next_entry", "next_key_seed")]
+    domv = vm.dominators()
+    d_plain = Dfx(vm)
+    for loc, nm in sorted(names.items()):
+        if nm not in want or not keyblocks:
+            continue
+        inits = [(bi, si, st) for bi, si, st in vm.stmts() if st["k"] == "assign" and st["p"]["local"] == loc and not st["p"]["proj"]
+                 and all(bi == kb or bi in domv.get(kb, set()) for kb in keyblocks)]
+        if len(inits) != 1:
+            continue
+        e0 = strip(d_plain.rvalue(inits[0][2]["rv"]))
+        empty = e0[0] == "agg" and str(e0[1]).endswith("None") or (e0[0] == "const" and "None" in str(e0[1]))
+        if not ("Option" in str(vm.locals[loc])):
+            continue
+        n += 1
+        R.inst(vm.ident, "t1b the slot `%s` starts as None" % nm, bool(empty))
+        if not empty:
+            R.fail(vm.ident, "t1b:prefilled:%s" % nm, "visit_map's slot for `%s` does not start empty (it starts as %s): a document without a `%s` entry passes the missing-field test with whatever the slot held, and a repeated entry is not noticed" % (nm, show(e0)[:80], nm), vm.where(inits[0][2]["span"]))
     # FIELDS table
     fb = [b for b in f.bodies if b.kind.startswith("Const") and b.name == "FIELDS"]
     if fb:
